@@ -402,6 +402,15 @@ def mnemonic_cases(ctx):
     for _ in range(ctx.n(300, 3000)):
         check_validity(ctx, [rng.choice(K.words) for _ in range(24)], 'random-24')
     check_validity(ctx, [], 'empty')
+    # lists whose entropy IS a basic seed but whose length is not 24: must be invalid by length alone
+    for n in [23, 25, 12, 18, 1] + [rng.randrange(1, 49) for _ in range(ctx.n(3, 20))]:
+        if n == 24:
+            continue
+        for _ in range(20000):
+            ws = [rng.choice(K.words) for _ in range(n)]
+            if ref_basic_output(ws)[0] == 0:
+                check_validity(ctx, ws, 'basic-seed-wrong-length')
+                break
 
 
 def run(ctx):
